@@ -187,7 +187,11 @@ Section OracleIff.
     unfold post_endpoint_b, eobs_ok. rewrite !andb_true_iff, negb_str_empty, Z.ltb_lt, Z.leb_le, is_kpanic_iff.
     rewrite (forallb_Forall canonical_b canonical) by apply canonical_iff.
     rewrite (forallb2_Forall2 _ (bobs_ok (tbl_fun tbl) (declared s e))) by (intros; apply post_backend_iff).
-    tauto.
+    rewrite orb_true_iff, negb_true_iff.
+    rewrite (forallb_Forall _ (fun ob => ob_dec ob = DNoop)) by (intros ob; destruct (ob_dec ob); simpl; split; congruence).
+    destruct (str_eqb (eff_enc s e) noop) eqn:E.
+    - apply str_eqb_eq in E. intuition congruence.
+    - apply str_eqb_neq in E. intuition congruence.
   Qed.
 
   Lemma post_agent_backend_iff b o : post_agent_backend_b tbl b o = true <-> abobs_ok (tbl_fun tbl) b o.
@@ -227,9 +231,9 @@ Section OracleIff.
   Qed.
 
   (* the model's own prediction satisfies the property (totality + rejection + post) *)
-  Lemma model_spec rd tl s : Spec tbl s (obs_of rd (init (tbl_fun tbl) tl s)).
+  Lemma model_spec rd tl s : tl noop = noop -> Spec tbl s (obs_of rd (init (tbl_fun tbl) tl s)).
   Proof.
-    intros Hw. destruct (total (tbl_fun tbl) tl s Hw) as [Hnp Hf].
+    intros Htl Hw. destruct (total (tbl_fun tbl) tl s Hw) as [Hnp Hf].
     pose proof (total_agents (tbl_fun tbl) tl s Hw) as Hfa.
     destruct (init (tbl_fun tbl) tl s) as [c|e|site] eqn:E; simpl.
     - split; [discriminate|]. split.
@@ -242,9 +246,11 @@ Section OracleIff.
               intros b b' Hb. unfold post_agent_backend in Hb. unfold abobs_ok, bobs_of. simpl. tauto.
             - destruct (agent_factory_new rd a') as [| |st] eqn:Ef; simpl; try discriminate.
               exfalso. exact (Hfa c eq_refl rd a' Hin st Ef). }
-        pose proof (post (tbl_fun tbl) tl s c Hw E) as P.
+        pose proof (post (tbl_fun tbl) tl Htl s c Hw E) as P.
         apply Forall2_map_r. eapply Forall2_imp_In; [|exact P].
-        intros e0 e' Hin [P1 [P2 [P3 [P4 P5]]]]. unfold eobs_ok, eobs_of. simpl. repeat split; auto.
+        intros e0 e' Hin [P1 [P2 [P3 [P4 [P5 P6]]]]]. unfold eobs_ok, eobs_of. simpl. repeat split; auto.
+        3:{ intros Hno. specialize (P6 Hno). apply Forall_forall. intros ob Hob.
+            apply in_map_iff in Hob. destruct Hob as [b' [<- Hb']]. rewrite Forall_forall in P6. simpl. apply P6. exact Hb'. }
         * apply Forall2_map_r. eapply Forall2_imp; [|exact P5].
           intros b b' Hb. unfold post_backend in Hb. unfold bobs_ok, bobs_of. simpl. tauto.
         * destruct (factory_new rd e') as [| |st] eqn:Ef; simpl; try discriminate.
